@@ -287,6 +287,6 @@ def run_case(case, rec, ctx):
 
 META = {
     "technique": "runtime contracts on Kibble/Kallen/is_within_phasespace/compute_third_mandelstam (lambdified + interpreted) against PDG Dalitz limits on generated events and box grids",
-    "level_text": "(Two routes: symbolic doit() then numbers, and exact numbers - incl. exact zeros for massless particles - inserted before doit().) The real functions are evaluated on generated three-body events (flat, threshold, boosted, collinear strata) and on grids plus random and boundary-hugging points of the kinematic bounding box for seven mass-configuration classes (incl. massless, equal, hierarchical, near-threshold) and all four outside values; every point away from the boundary by more than 1e-9 m0^2 is judged against the PDG limits. Sampling evidence, no proof.",
+    "level_text": "(Two routes: symbolic doit() then numbers, and exact numbers - incl. exact zeros for massless particles - inserted before doit().) The real functions are evaluated on generated three-body events (flat, threshold, boosted, collinear strata) and on grids plus random and boundary-hugging points of the kinematic bounding box for seven mass-configuration classes (incl. massless, equal, hierarchical, near-threshold) and all four outside values; every point away from the boundary by more than 1e-9 m0^2 is judged against the PDG limits. Sampling evidence, no proof. Also: keyword construction of Kibble/Kallen in any order, and exact rational boundary events (Kibble exactly 0, indicator must be 1).",
     "level_note": "PDG limit formula and numpy float64 trusted; boundary band of relative width 1e-9 not judged; crossed-channel regions out of scope as in the statement.",
 }
